@@ -5,7 +5,7 @@ REPO="${1:-/repo}"
 OUT="$(mktemp -d)"
 cd "$REPO" || exit 2
 env -u MPF_VERIF PYTHONPATH="$REPO" /venv/bin/python -m pytest -q -p no:cacheprovider --timeout=900 \
-   --continue-on-collection-errors -n 16 --junitxml="$OUT/j.xml" >"$OUT/log" 2>&1
+   --continue-on-collection-errors -n ${BASELINE_N:-16} --junitxml="$OUT/j.xml" >"$OUT/log" 2>&1
 tail -1 "$OUT/log"
 /venv/bin/python - "$OUT/j.xml" <<'PY'
 import json, sys, xml.etree.ElementTree as ET
